@@ -539,7 +539,12 @@ func census() []string {
 	return out
 }
 
+var dumpExtra func() string
+
 func dumpAndExit(why string) {
+	if dumpExtra != nil {
+		fmt.Fprintf(os.Stderr, "\nCONC-PANICS %s\n", dumpExtra())
+	}
 	buf := make([]byte, 4<<20)
 	n := runtime.Stack(buf, true)
 	fmt.Fprintf(os.Stderr, "\nCONC-DEADLOCK %s\n%s\nCONC-DEADLOCK-END\n", why, buf[:n])
@@ -555,6 +560,12 @@ func stress(seed int64, ms, mix, procs int, stdout *os.File) {
 	}
 	defer os.RemoveAll(e.dir)
 	e.res.Mode, e.res.Seed, e.res.Mix, e.res.Procs = "stress", seed, mix, procs
+	dumpExtra = func() string {
+		e.mu.Lock()
+		defer e.mu.Unlock()
+		b, _ := json.Marshal(e.res.Panics)
+		return string(b)
+	}
 	loopDone := make(chan struct{})
 	go e.packetLoop(loopDone)
 	notesDone := make(chan struct{})
@@ -665,7 +676,7 @@ func main() {
 	case "replay":
 		replay(*sched, realStdout)
 	case "gates":
-		fmt.Fprintln(realStdout, gatesPresent())
+		fmt.Fprintln(realStdout, gatesReport())
 	default:
 		os.Exit(2)
 	}
